@@ -60,8 +60,13 @@ def proved_K():
 def families(ctx):
     rng, q = ctx.rng, ctx.quick
     cases = list(C01.families(ctx))
+    if not q:
+        # the exhaustive families of C01's thorough tier are sampled here (C01 runs them exhaustively and treats a
+        # panic / time-out as "no tree"): keeps the thorough tier within its time budget
+        big = ("token-classes<=3", "alphabet<=3", "alphabet=3..6(sample)", "token-classes=4..6(sample)")
+        cases = [(f, t) for (f, t) in cases if f not in big or rng.random() < 0.34]
     # unterminated constructs at every token position of generated programs
-    for _ in range(6 if q else 60):
+    for _ in range(6 if q else 30):
         toks = parsergen.gen_program(rng, rng.choice([6, 14, 30]))
         for t in parsergen.unterminated_at_every_position(toks, max_pos=(25 if q else None)):
             cases.append(("unterminated-at-every-position", t))
@@ -70,7 +75,7 @@ def families(ctx):
             cases.append(("unterminated-pairs", u + " " + v))
             cases.append(("unterminated-pairs", u + "\n" + v + "\n"))
     # deep nesting of every recursive construct, closed and unclosed
-    depths = [1, 2, 3, 17, 64, 128, 255, 256] if q else list(range(1, 40)) + [64, 100, 128, 200, 255, 256]
+    depths = [1, 2, 3, 17, 64, 128, 255, 256] if q else list(range(1, 13)) + [17, 32, 64, 100, 128, 200, 255, 256]
     for d in depths:
         for t in parsergen.nesting(d):
             cases.append(("nesting<=256", t))
